@@ -13,7 +13,7 @@ EXPLANATION = (
     "and the offsets are in bytes (x size_of::<i32>() on the writer, / 4 and % 4 tests on the reader), and keys are written in "
     "unsigned order.  R3: Snap::type_id's unwrap of the registry lookup is justified by the MissingUuidType clause of "
     "build_from_raw (the clause must test exactly the key key(TYPE_ID_EX, raw_type_id)).  R4: key / key_to_raw_type_id / "
-    "key_to_id are mutually inverse bit packings (bit-provenance evaluation).  R1b: build_from_raw clears the registry before rebuilding it.  R2b (tight guards): read_from_ints admits items of length 0 (the guards give start <= end and do not force start < end) and recycle counts the registry id OFFSET_EXTENDED_TYPE_ID itself.  Not decided: indistinguishability of all "
+    "key_to_id are mutually inverse bit packings (bit-provenance evaluation).  R1b: build_from_raw clears the registry before rebuilding it.  R2b (tight guards): read_from_ints admits items of length 0 (the guards give start <= end and do not force start < end) and recycle counts the registry id OFFSET_EXTENDED_TYPE_ID itself.  R2c: RawSnap::read_from_ints refuses exactly on the relations the writer never produces (exact clause table).  Not decided: indistinguishability of all "
     "snapshots after a round trip (value level)."
 )
 ASSUMPTIONS = ["BTreeMap iteration order is key order (std)"]
@@ -32,6 +32,7 @@ def run(ctx, rep):
     key_bijection(prog, rep)
     registry_rebuilt(prog, rep)
     boundaries_admitted(prog, rep)
+    reader_clauses(prog, rep)
 
 
 def _is_type_ex(prog, e):
@@ -226,6 +227,40 @@ def type_id_clause(prog, rep):
             okq = True
     rep.ob(rule, "type_id | unwrap looks up the same key", okq,
            "Snap::type_id unwraps raw.item(TYPE_ID_EX, raw_type_id): the key the clause above guarantees", t.loc())
+    # the clause must cover every type number for which type_id unwraps: both sides split at OFFSET_EXTENDED_TYPE_ID, and
+    # the checking side leaves the boundary value itself inside the checked range
+    from ..guards import Reasoner, Lin
+    off = prog.constv(F + "OFFSET_EXTENDED_TYPE_ID")
+    trs = Reasoner(tir, prog)
+    dom_ok = False
+    for bi, tt in uw:
+        facts, nes = trs.facts_at(bi)
+        lv = trs.lin(("arg", 1, "raw_type_id"))
+        if lv is not None and trs.prove(Lin.const(off).sub(lv), facts) and not trs.prove(Lin.const(off + 1).sub(lv), facts):
+            dom_ok = True
+    brs = Reasoner(ir, prog)
+    chk_ok = False
+    n = 0
+    for bi, tt in b.calls():
+        if not (tt.get("callee") or "").endswith("BTreeMap::get"):
+            continue
+        e = ir.call_expr(bi, tt)
+        rt = None
+        for x in walk(e):
+            if isinstance(x, tuple) and x and x[0] == "call" and x[1] == F + "key" and _is_type_ex(prog, x[2][0]):
+                rt = x[2][1]
+        if rt is None:
+            continue
+        n += 1
+        facts, nes = brs.facts_at(bi)
+        lv = brs.lin(rt)
+        if lv is not None and brs.prove(Lin.const(off).sub(lv), facts) and not brs.prove(Lin.const(off + 1).sub(lv), facts):
+            chk_ok = True
+    rep.ob(rule, "registry checked for every type number type_id unwraps", dom_ok and chk_ok,
+           "type_id unwraps exactly for raw_type_id >= %#x, and build_from_raw looks the registry up for every raw_type_id >= %#x (the boundary included)" % (off, off)
+           if dom_ok and chk_ok else
+           "the range for which build_from_raw checks the registry (%s) does not cover the range for which type_id unwraps (%s): an item of type %#x without a registry entry is accepted and items() panics"
+           % ("ok" if chk_ok else "boundary excluded or not established", "ok" if dom_ok else "not established", off), b.loc())
 
 
 def key_bijection(prog, rep):
@@ -330,3 +365,39 @@ def boundaries_admitted(prog, rep):
                    ("registry id %#x (the first one the builder hands out) is skipped: the recycled builder hands it out again" % off if gt else
                     "the store is not guarded by id >= OFFSET_EXTENDED_TYPE_ID"), r.loc(st_.get("ln")))
     rep.floor(rule, m, 1, "next_type_id = id + 1 in Snap::recycle")
+
+
+def reader_clauses(prog, rep):
+    """R2c: the exact relations under which RawSnap::read_from_ints refuses its input -- what the writer emits (data_size a
+    multiple of 4 and within the data, offsets in bytes, multiples of 4, starting at 0, strictly increasing, ending at
+    data_size) is accepted, anything else refused.  Operator and orientation are normalised; see common.exact_clauses."""
+    from .common import exact_clauses, _txt, _is0
+    b = prog.one(S + "RawSnap::read_from_ints")
+    ir = IR(b)
+    is_off = lambda a: "offsets" in _txt(a) and "Iterator>::next" in _txt(a)
+    table = [
+        ("fewer ints than announced offsets", lambda a: a[0] == "len", lambda b_: "num_items" in _txt(b_), "Lt", 1),
+        ("data_size is not a multiple of 4", lambda a: a[0] == "bin" and a[1] == "Rem" and "data_size" in _txt(a[2]) and a[3][0] == "c" and a[3][1] == 4, _is0, "Ne", 1),
+        ("an offset is negative", lambda a: is_off(a) and a[0] != "bin" and "unwrap_or" not in _txt(a), _is0, "Lt", 1),
+        ("an offset is not a multiple of 4", lambda a: a[0] == "bin" and a[1] == "Rem" and is_off(a[2]) and a[3][0] == "c" and a[3][1] == 4, _is0, "Ne", 1),
+        ("an offset does not exceed its predecessor", lambda a: is_off(a) and "unwrap_or" in _txt(a), lambda b_: "prev" in _txt(b_) or b_[0] == "unwrapped", "Le", 1),
+        ("an offset lies beyond the item data", lambda a: is_off(a) and "unwrap_or" in _txt(a), lambda b_: "data_size" in _txt(b_), "Gt", 1),
+        ("the first offset is not 0", lambda a: is_off(a) and "unwrap_or" in _txt(a), _is0, "Ne", 1),
+    ]
+    exact_clauses(rep, "R2c-reader-clauses", "read_from_ints", b, ir, table, floor=7)
+    # the announced sizes against the data actually present: `Greater` is an error, `Less` only a warning
+    cmpc = [(bi, t) for bi, t in b.calls() if (t.get("callee") or "").endswith("::cmp")]
+    ok = False
+    for bi, t in cmpc:
+        e = ir.call_expr(bi, t)
+        if "len(" in _txt(e[2][1]) and "num_items" in _txt(e[2][0]) and "data_size" in _txt(e[2][0]):
+            # the block building ItemsUnpacking is on the Greater arm (discriminant 1)
+            for b2 in sorted(b.live):
+                for st in b.blocks[b2]["st"]:
+                    if st["k"] == "assign" and st["r"]["k"] == "agg" and st["r"].get("variant") == "ItemsUnpacking":
+                        for c, rel, v, edge, dty in ir.edge_conditions(b2):
+                            if c[0] in ("discr", "call") and "cmp" in _txt(c) and rel == "==" and v == 1:
+                                ok = True
+    rep.ob("R2c-reader-clauses", "read_from_ints | refuses when offsets + items exceed the data", ok,
+           "(num_items + data_size / 4).cmp(&data.len()) == Greater is ItemsUnpacking" if ok else
+           "the ItemsUnpacking error is not on the Greater arm of the size comparison", b.loc())
